@@ -225,8 +225,10 @@ def make_batch(cfg: Config, seed: int, rank: int, it: int, mb: int,
     g = torch.Generator().manual_seed(
         7919 * seed + 104729 * rank + 1299709 * it + 15485863 * mb + 17,
     )
-    x = torch.randn((cfg.batch,) + in_shape(cfg.model), generator=g)
-    y = torch.randn((cfg.batch,) + out_shape(cfg.model), generator=g)
+    # the batch size varies from iteration to iteration (same on all ranks)
+    bs = cfg.batch + (it + mb) % 3
+    x = torch.randn((bs,) + in_shape(cfg.model), generator=g)
+    y = torch.randn((bs,) + out_shape(cfg.model), generator=g)
     return x.to(dtype), y.to(dtype)
 
 
@@ -234,6 +236,7 @@ def loss_fn(out: torch.Tensor, y: torch.Tensor, local_batch: int,
             scale: float | None) -> torch.Tensor:
     # sum / local batch size: the arrangement under which per-sample output
     # gradients coincide between the distributed and the union-batch run
+    local_batch = out.shape[0] if local_batch is None else local_batch
     loss = ((out - y) ** 2).sum() / (2 * local_batch)
     if scale is not None:
         loss = loss * scale
@@ -393,7 +396,7 @@ class RankRun:
                 )
             out = self.model(x)
             if backward:
-                loss = loss_fn(out, y, cfg.batch, cfg.grad_scaler)
+                loss = loss_fn(out, y, out.shape[0] // cfg.union, cfg.grad_scaler)
                 loss.backward()
         if backward:
             with torch.no_grad():
